@@ -432,6 +432,14 @@ func (x *Exec) applyContract(st *State, ct *Contract, c *callee, recv *T, args [
 		st.assume(eq(results[0].S, x.pureApp(c.fn, recv, args).S))
 		x.note("pure: %s is treated as a function of its receiver and arguments (result == pure_%s(...))", ct.Key, sanitize(shortName(funcFullName(c.fn))))
 	}
+	for _, y := range ct.Yields {
+		// the callee's result-naming logical variable: for the caller it is a
+		// fresh value constrained only by the ensures clauses
+		g := x.ghostGet(st, y.Name)
+		nm := x.d.freshName("G_" + y.Name)
+		x.d.declareConst(nm, x.ghostSort(y.Name))
+		st.ghost[y.Name] = T{S: nm, Ty: g.Ty}
+	}
 	for _, e := range ct.Ensures {
 		t := x.specEval(st, e.Expr, env)
 		st.assume(t.S)
@@ -629,6 +637,9 @@ func (x *Exec) callModifies(call *ast.CallExpr, m *modSet) {
 	pkg := x.prog.pkgByPath(ct.Pkg)
 	for _, b := range ct.Binds {
 		m.ghost[b.Name] = true
+	}
+	for _, y := range ct.Yields {
+		m.ghost[y.Name] = true
 	}
 	for _, cl := range ct.Modifies {
 		txt := cl.Text
@@ -977,8 +988,14 @@ func (x *Exec) evalBuiltin(st *State, call *ast.CallExpr, name string) T {
 			res := x.d.freshConst("appended", bt)
 			st.assume(eq(app("slc-len", res.S), fmt.Sprintf("(+ (slc-len %s) (slc-len %s))", base.S, other.S)))
 			st.assume(eq(app("slc-off", res.S), "0"))
-			st.assume(fmt.Sprintf("(forall ((i Int)) (! (=> (and (<= 0 i) (< i (slc-len %s))) (= (select (slc-arr %s) i) (select (slc-arr %s) (+ (slc-off %s) i)))) :pattern ((select (slc-arr %s) i))))", base.S, res.S, base.S, base.S, res.S))
-			st.assume(fmt.Sprintf("(forall ((i Int)) (! (=> (and (<= 0 i) (< i (slc-len %s))) (= (select (slc-arr %s) (+ (slc-len %s) i)) (select (slc-arr %s) (+ (slc-off %s) i)))) :pattern ((select (slc-arr %s) (+ (slc-off %s) i)))))", other.S, res.S, base.S, other.S, other.S, other.S, other.S))
+			basePat := ""
+			if slcOff(base.S) == "0" {
+				// also triggered by reads of the prefix operand, so that witnesses carry over
+				basePat = fmt.Sprintf(" :pattern (%s)", slcAt(base.S, "i"))
+			}
+			st.assume(fmt.Sprintf("(forall ((i Int)) (! (=> (and (<= 0 i) (< i (slc-len %s))) (= (select (slc-arr %s) i) %s)) :pattern ((select (slc-arr %s) i))%s))", base.S, res.S, slcAt(base.S, "i"), res.S, basePat))
+			// the tail is read through the result index (arithmetic-free trigger)
+			st.assume(fmt.Sprintf("(forall ((t Int)) (! (=> (and (<= (slc-len %s) t) (< t (slc-len %s))) (= (select (slc-arr %s) t) (select (slc-arr %s) (+ (slc-off %s) (- t (slc-len %s)))))) :pattern ((select (slc-arr %s) t))))", base.S, res.S, res.S, other.S, other.S, base.S, res.S))
 			return res
 		}
 		cur := base.S
